@@ -130,8 +130,11 @@ class Ctx:
         ev = {'property_id': self.prop, 'tier': self.tier, 'seed': self.seed, 'level': level,
               'coverage': cov, 'assumptions': self.assumptions,
               'wall_s': round(time.time() - self.t0, 2), 'violations': len(self.violations)}
-        os.makedirs(os.path.join(VERIF, 'evidence'), exist_ok=True)
-        with open(os.path.join(VERIF, 'evidence', '%s.json' % self.prop), 'w') as f:
+        # runs against a scratch tree (VERIF_REPO set) must not overwrite the real evidence
+        evdir = os.path.join(VERIF, 'evidence') if os.path.abspath(REPO) == '/repo' \
+            else os.path.join(VERIF, 'out', 'evidence_scratch')
+        os.makedirs(evdir, exist_ok=True)
+        with open(os.path.join(evdir, '%s.json' % self.prop), 'w') as f:
             json.dump(ev, f, indent=1, default=str)
         for k, (d, n) in sorted(self.known_hits.items()):
             print('KNOWN-FINDING: property=%s %s [%s] (%d cases)' % (self.prop, d, k, n))
